@@ -270,8 +270,21 @@ def sto2(a, i, j, v):
     return z3.Store(a, i, z3.Store(z3.Select(a, i), j, v))
 
 
+# pairs of integers (elements of Python lists of index pairs, e.g. warping paths): an uninterpreted sort with a
+# constructor and two projections, axiomatised by ipair_axioms (no SMT datatypes: every back end reads the same text)
+IPairS = z3.DeclareSort('IPair')
+ip_mk = z3.Function('ip_mk', IntS, IntS, IPairS)
+ip_fst = z3.Function('ip_fst', IPairS, IntS)
+ip_snd = z3.Function('ip_snd', IPairS, IntS)
+
+
+def ipair_axioms():
+    a, b = z3.Ints('ipx_a ipx_b')
+    return [z3.ForAll([a, b], z3.And(ip_fst(ip_mk(a, b)) == a, ip_snd(ip_mk(a, b)) == b), patterns=[ip_mk(a, b)])]
+
+
 def kind_sort(kind):
-    return {'int': IntS, 'val': Val, 'bool': BoolS, 'cset': CSetS}[kind]
+    return {'int': IntS, 'val': Val, 'bool': BoolS, 'cset': CSetS, 'ipair': IPairS}[kind]
 
 
 # ---------------------------------------------------------------------------------------------
